@@ -20,9 +20,9 @@ type aeadCase struct {
 	KeyLen  int
 	PtLen   int
 	AadLen  int
-	DstLen  int    // bytes already in dst
-	DstCap  int    // extra capacity of dst behind DstLen; -1: dst == nil
-	InPlace bool   // Seal(plaintext[:0], ...) / Open(ciphertext[:0], ...) as the cipher.AEAD contract allows
+	DstLen  int  // bytes already in dst
+	DstCap  int  // extra capacity of dst behind DstLen; -1: dst == nil
+	InPlace bool // Seal(plaintext[:0], ...) / Open(ciphertext[:0], ...) as the cipher.AEAD contract allows
 	Seed    uint64
 	Mut     *mutation // ct (= E || T as one slice), nonce, aad
 }
@@ -230,7 +230,7 @@ func TestAEADSweep(t *testing.T) {
 
 func TestAEADRapid(t *testing.T) {
 	sec := vk.Sec("AEADRapid")
-	vk.Check(t, 20000, 400000, func(rt *rapid.T) {
+	vk.Check(t, 20000, 1000000, func(rt *rapid.T) {
 		c := aeadCase{Variant: rapid.IntRange(0, 3).Draw(rt, "variant"), Seed: rapid.Uint64().Draw(rt, "seed")}
 		p := refcrypto.CBCHMACVariant[c.Variant]
 		c.KeyLen = p.KeyLen()
